@@ -7,6 +7,7 @@ package main
 import (
 	"fmt"
 	"go/ast"
+	"go/token"
 	"strings"
 )
 
@@ -200,6 +201,59 @@ func init() {
 		w.Line("def getPayloadFresh : Bool := %s", Bool(fresh && sharedOnlyForStream))
 		w.Line("/-- `doHandle` (one call per attempt) calls `spCtx.prepareRequest(…)` itself -/")
 		w.Line("def prepareInsideDoHandle : Bool := %s", Bool(r.CountCalls(dh.Body, "spCtx.prepareRequest") == 1))
+
+		// ---- gzip compress reader: every reader owns a fresh writer over its own buffer, no package-level state,
+		// Close does not touch writer or buffer (it is called more than once per compressed response)
+		const gzf = "pkg/util/readers/gzipcompressreader.go"
+		ngz, err := r.Func(gzf, "", "NewGZipCompressReader")
+		if err != nil {
+			return err
+		}
+		ownBuf, ownGw := false, false
+		ast.Inspect(ngz.Body, func(x ast.Node) bool {
+			switch y := x.(type) {
+			case *ast.AssignStmt:
+				if y.Tok == token.DEFINE && len(y.Lhs) == 1 && len(y.Rhs) == 1 && r.Src(y.Lhs[0]) == "buff" && r.Src(y.Rhs[0]) == "bytes.NewBuffer(nil)" {
+					ownBuf = true
+				}
+			case *ast.KeyValueExpr:
+				if r.Src(y.Key) == "gw" && r.Src(y.Value) == "gzip.NewWriter(buff)" {
+					ownGw = true
+				}
+			}
+			return true
+		})
+		w.Line("/-- NewGZipCompressReader: `buff := bytes.NewBuffer(nil)`, `gw: gzip.NewWriter(buff)` -/")
+		w.Line("def gzipWriterOwned : Bool := %s", Bool(ownBuf && ownGw))
+		gf, err := r.File(gzf)
+		if err != nil {
+			return err
+		}
+		var pkgVars []string
+		for _, d := range gf.Decls {
+			if gd, ok := d.(*ast.GenDecl); ok && gd.Tok == token.VAR {
+				for _, sp := range gd.Specs {
+					for _, n := range sp.(*ast.ValueSpec).Names {
+						pkgVars = append(pkgVars, n.Name)
+					}
+				}
+			}
+		}
+		w.Line("/-- package-level variables of gzipcompressreader.go: %v -/", pkgVars)
+		w.Line("def gzipNoPackageState : Bool := %s", Bool(len(pkgVars) == 1 && pkgVars[0] == "bodyFlushSize"))
+		gcl, err := r.Func(gzf, "GZipCompressReader", "Close")
+		if err != nil {
+			return err
+		}
+		touches := false
+		ast.Inspect(gcl.Body, func(x ast.Node) bool {
+			if se, ok := x.(*ast.SelectorExpr); ok && (se.Sel.Name == "gw" || se.Sel.Name == "buff") {
+				touches = true
+			}
+			return true
+		})
+		w.Line("/-- GZipCompressReader.Close mentions neither `gw` nor `buff` -/")
+		w.Line("def gzipCloseStateless : Bool := %s", Bool(!touches))
 
 		mx, err := r.Func("pkg/object/httpserver/mux.go", "muxInstance", "serveHTTP")
 		if err != nil {
